@@ -86,7 +86,8 @@ def harness(g, chart, level, canary=False):
     from sismic.exceptions import NonDeterminismError, ConflictingTransitionsError
     namings = level.get('namings', ['id'])
     naming = namings[g.choice('naming', len(namings))]
-    inst = Inst(g, chart, naming, guards=bool(level.get('guards', 0 if level.get('fixed') else 1)))
+    can_freeze = bool(level.get('guards', 0 if level.get('fixed') else 1))
+    inst = Inst(g, chart, naming, guards=can_freeze)
     cm, it = inst.cm, inst.it
     hist = []
 
@@ -134,6 +135,9 @@ def harness(g, chart, level, canary=False):
     before = it.configuration
     for j in range(level['K'] + 2):
         st, err, log = inst.step(level['K'] + j, None, frozen=True)
+        if not can_freeze and (err is not None or (st is not None and st.transitions)):
+            st = None       # guards are not probes at this level: the chart legitimately goes on running
+            break
         quiet = err is None and it.configuration == before and (
             st is None or (not st.transitions and not st.entered_states and not st.exited_states
                            and st.event is not None))
